@@ -12,8 +12,8 @@ CLAIMED = {
          "Uninitialised-memory dependence is visible only if it changes the output; cross-type comparison trusts the C03 decoders."),
  "C14": ("5 C14", "Lockstep refinement of the real SimulateMsp430 against an executable reference model of the MSP430x1xx/2xx CPU (directed stratification over every instruction x mode x size cell plus seeded streams), and chunking-invariance of the run loop (step / run+breakpoint / SIGINT+resume / call / -run / -break_io) under the simulated clock.",
          "Trusts the reference model (written from SLAU049/SLAU144 chapter 3, with documented don't-care bits and excluded cells) and the register-dump parser."),
- "C15": ("5 C15", "Seeded single steps of all 15 simulators from user-reachable states under ASan/UBSan, with out-of-address-space page detection, repeatability across fresh objects / heap fills / unrelated histories, SIGINT bounded-return, and PC-versus-disassembler length agreement.",
-         "Samples the opcode x state space (stratified over the first opcode unit); trusts the per-class snapshot field lists."),
+ "C15": ("5 C15", "Seeded single steps of all 15 simulators from user-reachable states (set_reg/push/set_pc/reset and prefix steps only) under ASan/UBSan, with out-of-address-space page detection, repeatability of the step (and of a second step) across fresh objects / heap fills / unrelated and sibling-instruction histories on the same object, and bounded return of a free-running run() after a SIGINT planned at the k-th usleep of the simulated clock.",
+         "Samples the opcode x state space (stratified over the first opcode unit and over the byte after a prefix); state is observed through dump_registers() and a hash of the memory pages; PC-versus-disassembler length agreement is not checked."),
  "C16": ("5 C16", "Seeded search over naken_asm lifetimes whose input streams end, fail, recurse or vanish at planned points, with buffer-boundary token sizes, deep nesting, extreme addresses, raw bytes and option sets; monitors are ASan/UBSan (bounds, null, divide-by-zero), exit status, diagnostics and deterministic/CPU-time budgets.",
          "Sanitizer coverage is limited to executed paths; allocation failure is never injected; spans above 2^24 bytes are avoided except in one explicit probe."),
  "C17": ("5 C17", "Seeded search over naken_util lifetimes: object files written by the real assembler, damaged by the simulated disk (torn, flipped, field-mutated), loaded under seeded command lines and driven by scripted console sessions with planned SIGINTs; same monitors as C16 plus quit-is-obeyed and bounded return after SIGINT.",
